@@ -52,7 +52,7 @@ def run(chk, repo, tier):
     chk.rule("C06.R1", "v ∈ {27, 28}; s ≤ (N−1)/2 on every path; r is the x-coordinate of k·G", 2)
     chk.rule("C06.R2", "s·k ≡ z + r·d (mod N), z = OS2IP(hash), d = OS2IP(key)", 2)
     chk.rule("C06.R3", "nonce = RFC 6979 §3.2 HMAC-SHA256 chain over key‖hash (raw-bytes convention), big-endian", 3)
-    chk.rule("C06.R4", "sign∘recover = d·G in the formal group on every path (v flip and s flip agree); recover is as C19 requires", 2 + 8)
+    chk.rule("C06.R4", "sign∘recover = d·G in the formal group on every path (v flip and s flip agree); recover is as C19 requires; Jacobian routines as C18.R1/R2 require", 2 + 8 + 20)
     chk.not_decided += ["1 ≤ r < N (r is returned unreduced), s ≠ 0, k ∈ [1, N−1]: 2^-128 value events, not visible in the code's shape",
                         "RFC 6979's reduction of h1 modulo q and its retry loop are not part of the code (raw-bytes convention)"]
     chk.assumptions += ["multiply/inv are the group operation / modular inverse (C18, C08.R4)",
@@ -160,6 +160,19 @@ def run(chk, repo, tier):
         err = e
     for rule, construct, key, ok, detail, where in sub.obs:
         chk.ob("C06.R4", construct, f"recover side [{rule}] {key}", ok, detail, where)
+    if err is not None and all(o[3] for o in sub.obs):
+        raise err
+    # the scalar multiplications of sign and recover take arbitrary integers (N − z, unreduced hashes): C18.R1/R2 re-stated
+    from . import C18
+    sub = SubCheck()
+    err = None
+    try:
+        C18.run(sub, repo, tier)
+    except AnalysisError as e:
+        err = e
+    for rule, construct, key, ok, detail, where in sub.obs:
+        if rule in ("C18.R1", "C18.R2"):
+            chk.ob("C06.R4", construct, f"group law [{rule}] {key}", ok, detail, where)
     if err is not None and all(o[3] for o in sub.obs):
         raise err
     # ---- R3 nonce term
